@@ -163,6 +163,71 @@ def make_request_body(a, c, nfrag):
     return q
 
 
+# ---------------------------------------------------------------- several handles on one buffered body (real files)
+HANDLE_N = 6000                                  # larger than the read buffer of a file object (4096 / 8192)
+HANDLE_DATA = bytes(i % 251 for i in range(HANDLE_N))
+HANDLE_OPS = ("A.body.read(16)", "A.body.read()", "B = A.copy()", "B.body.read(16)", "B.body.read()")
+
+
+def _concrete(o, hi):
+    """the solver integer as a plain int (one branch per value)"""
+    for v in range(hi + 1):
+        if o == v:
+            return v
+    assume(False)
+
+
+def make_handles(spill, nops, first):
+    """The body is buffered by the first access, then the application works with the request AND a copy of it
+    (Request.copy(), made after the body was buffered): any sequence of partial and full reads on the two objects - every
+    full read is the body, every partial read its first bytes.  The real io.BytesIO / tempfile.TemporaryFile are used here
+    (the data is concrete; the solver chooses the operations)."""
+    import io
+    import tempfile
+
+    def q(o1: int, o2: int, o3: int, o4: int, o5: int):
+        ops = [_concrete(o1, 1)]                 # the first access buffers the body
+        have_copy = False
+        for o in [o2, o3, o4, o5][:nops - 1]:
+            o = _concrete(o, 4)
+            if o == 2:
+                have_copy = True
+            elif o >= 3:
+                assume(have_copy)
+            ops.append(o)
+        saved = body_mixin.BytesIO, body_mixin.TemporaryFile
+        body_mixin.BytesIO, body_mixin.TemporaryFile = io.BytesIO, tempfile.TemporaryFile
+        try:
+            s = stubs.SymStream(HANDLE_N, [first], data=HANDLE_DATA)
+            A = Request({"wsgi.input": s, "REQUEST_METHOD": "POST", "CONTENT_LENGTH": str(HANDLE_N)},
+                        config={"max_memfile_size": 100 if spill else 8192, "max_body_size": None})
+            B = None
+            for i, o in enumerate(ops):
+                if o == 2:
+                    B = A.copy()
+                    cover("copied")
+                    continue
+                rq = A if o < 2 else B
+                if o in (0, 3):
+                    got, want = rq.body.read(16), HANDLE_DATA[:16]
+                else:
+                    got, want = rq.body.read(), HANDLE_DATA
+                    cover("full-read-on-copy" if o == 4 else "full-read")
+                if got != want:
+                    return "step %d of %r: %s returned %d bytes%s, the body has %d" % (
+                        i + 1, [HANDLE_OPS[x] for x in ops], HANDLE_OPS[o], len(got),
+                        "" if got == want[:len(got)] else " (content differs)", len(want))
+            got_n = 0
+            for n, m in zip(s.asked, s.given):
+                if n > HANDLE_N - got_n or n <= 0:
+                    return "read(%r) beyond Content-Length %r (already %r)" % (n, HANDLE_N, got_n)
+                got_n += m
+        finally:
+            body_mixin.BytesIO, body_mixin.TemporaryFile = saved
+        return None
+    return q
+
+
 MP_BODY = b'--b\r\nContent-Disposition: form-data; name="f"\r\n\r\nv\r\n--b--\r\nepilogue'
 
 
@@ -267,6 +332,16 @@ def queries(tier):
                      "are judged up to the end of the response" % (a, a + 1, a),
                      timeout=200 if tier == "quick" else 600,
                      expect_cover=(["delivered", "ignored"] + (["stream-failed", "refused"] if a else [])), family="wsgi"))
+    for spill, first in ([(True, 4096)] if tier == "quick" else [(True, 4096), (True, 1), (True, 5999), (False, 4096)]):
+        nops = 5 if spill else 4
+        if True:
+            out.append(Q("handles/%s/ops%d/first%d" % ("file" if spill else "memory", nops, first), make_handles(spill, nops, first),
+                         "body of %d concrete bytes, Content-Length framed, first read of the server short, held "
+                         "%s (real io.BytesIO / tempfile.TemporaryFile); first access on the request, then every sequence of %d "
+                         "operations of %r (solver integers; the copy is made after the body was buffered): every read returns the "
+                         "body / its first 16 bytes, the stream is not read beyond Content-Length"
+                         % (HANDLE_N, "in a temporary file (max_memfile_size 100)" if spill else "in memory", nops - 1, list(HANDLE_OPS)),
+                         timeout=300 if tier == "quick" else 600, expect_cover=["copied", "full-read-on-copy"], family="handles"))
     nf = 3 if tier == "quick" else 5
     out.append(Q("iter_body/int/f%d" % nf, make_iter_body(nf, 3 if tier == "quick" else 4),
                  "all avail a, Content-Length c in [-1,2^20], buffer b in [1,2^20], %d symbolic short-read lengths, "
